@@ -15,7 +15,7 @@ import time
 
 from ..hw import explore_hw, aggregate, rederive
 from ..common import run_configs, finish
-from .arbcommon import build, ArbModel, configs as arb_configs
+from .arbcommon import build, ArbModel, configs as arb_configs, phases_for
 
 PID = "C09"
 
@@ -35,7 +35,7 @@ class Observer(ArbModel):
 
     def probe_letters(self):
         ctl = tuple((1, 1, 1 if "lock" in self.ifeat[k] else 0) for k in range(self.n))
-        return [self.letter(ctl, p, (0, 0, 0, 0), j) for p in (2, 3, 4, 5) for j in ((0, 1) if self.rejected else (0,))]
+        return [self.letter(ctl, p, (0, 0, 0, 0), j) for p in range(2, phases_for(self.n)) for j in ((0, 1) if self.rejected else (0,))]
 
     def observe(self, obs, letter, outs, hw, hw2):
         ii = self.ii
